@@ -100,3 +100,27 @@ Theorem timestamp_inverts_from_timestamp_float_beyond_family :
   from_timestamp_float (fixed_zone 0) false (total_seconds 253402300799999985) = Raise E_ValueError.
 Proof. exact ts_beyond_family_evaluated. Qed.
 Print Assumptions timestamp_inverts_from_timestamp_float_beyond_family.
+
+(* ---- the tz database itself (Gen/ZoneTables.v: every table the staged interpreter's zoneinfo ships, regenerated on every run, proved well-formed by kernel
+   computation in Proofs/ShippedZones.v / Props/C02.v shipped_zones_wellformed): the conversion theorems hold for the concrete zones without any hypothesis on the table *)
+From Coq Require Import List.
+From PV Require Import Gen.ZoneTables Proofs.ShippedZones.
+
+Theorem shipped_zone_render_then_inst : forall z U, In z shipped_zones -> let '(W, f) := render z U in inst z W f = U.
+Proof. exact shipped_render_inst. Qed.
+Print Assumptions shipped_zone_render_then_inst.
+
+Theorem shipped_zone_conversion : forall z1 z2 W f W' f', In z2 shipped_zones -> astz z1 z2 W f = Ok (W', f') ->
+  inst z2 W' f' = inst z1 W f /\
+  W' = inst z1 W f + MEG * off_utc z2 (inst z1 W f / MEG) /\ f' = fold_utc z2 (inst z1 W f / MEG).
+Proof. exact shipped_conversion. Qed.
+Print Assumptions shipped_zone_conversion.
+
+Theorem shipped_zone_chain : forall z1 z2 z3 W f W2 f2, In z2 shipped_zones -> astz z1 z2 W f = Ok (W2, f2) ->
+  astz z2 z3 W2 f2 = astz z1 z3 W f.
+Proof. exact shipped_chain. Qed.
+Print Assumptions shipped_zone_chain.
+
+Theorem shipped_zone_timestamp : forall z n W f, In z shipped_zones -> from_timestamp_int z false n = Ok (W, f) -> int_timestamp z W f = n.
+Proof. exact shipped_timestamp. Qed.
+Print Assumptions shipped_zone_timestamp.
